@@ -122,5 +122,111 @@ def p1_p2(chk, repo, tier):
                                 chk.violation("P2", key, where(c, e.lineno), "%s stores partials[%s, %s] which is not declared under %s" % (lin_name, o, w, sig_txt(merged(sig, rl.sigma))))
 
 
+
+
+# --------------------------------------------------------------------------- P4
+import ast as _ast
+
+
+def pred_signature(ev):
+    """Renaming-insensitive signature of an input-valued predicate: the inputs
+    it may depend on, its comparison operators and its literal constants."""
+    node = ev.node.test if hasattr(ev.node, "test") else ev.node
+    ops = []
+    consts = []
+    for n in _ast.walk(node):
+        if isinstance(n, _ast.Compare):
+            ops.extend(type(o).__name__ for o in n.ops)
+        elif isinstance(n, _ast.Constant) and isinstance(n.value, (int, float)) and not isinstance(n.value, bool):
+            consts.append(float(n.value))
+        elif isinstance(n, (_ast.Not, _ast.And, _ast.Or)):
+            ops.append(type(n).__name__)
+    deps = tuple(sorted(norm_name(d) for d in ev.dep if d.startswith(("in:", "out:"))))
+    return (deps, tuple(sorted(ops)), tuple(sorted(consts)))
+
+
+def controlled_stores(run, test_ev, roles):
+    ln = test_ev.lineno
+    out = []
+    for e in run.events:
+        if e.kind == "store" and e.cell and e.cell[0] in roles:
+            if any(p[2] == ln for p in e.preds):
+                out.append(e)
+    return out
+
+
+def p4(chk, repo, tier):
+    chk.rule("P4", "the input-valued predicates controlling stores in compute_partials/linearize equal those controlling stores in compute/apply_nonlinear (a smooth value has no special-case derivative; a branching value needs the branch in its derivative)", min_decided=2)
+    for m in all_models(repo):
+        c = m.cls
+        if c.name in POSTPROCESSING or c.name in NEVER_INSTANTIATED:
+            continue
+        implicit = c.kind == "implicit"
+        evm = "apply_nonlinear" if implicit else "compute"
+        lin = "linearize" if implicit else "compute_partials"
+        if evm not in m.runs or lin not in m.runs:
+            continue
+
+        def collect(mname, roles):
+            sigs = {}
+            for r in m.runs[mname]:
+                if r.final is None:
+                    continue
+                for e in r.events:
+                    if e.kind != "test" or e.depth != 0 and False:
+                        continue
+                    if not any(d.startswith(("in:", "out:")) for d in e.dep):
+                        continue
+                    ctl = controlled_stores(r, e, roles)
+                    if not ctl and not e.d.get("expr"):
+                        # does any later store depend on values assigned under the test?
+                        # (conservatively) keep tests whose arms assign locals
+                        pass
+                    sigs.setdefault(pred_signature(e), []).append((r, e, ctl))
+            return sigs
+
+        ev_sigs = collect(evm, ("out", "res"))
+        lin_sigs = collect(lin, ("partials",))
+        for sig, lst in lin_sigs.items():
+            r, e, ctl = lst[0]
+            key = "%s.%s: if %s" % (c.name, lin, " ".join(unparse_test(e).split()))
+            if sig in ev_sigs:
+                chk.ok("P4", key, where(c, e.lineno), "same predicate controls %s" % evm)
+            else:
+                chk.violation(
+                    "P4",
+                    key,
+                    where(c, e.lineno),
+                    "%s branches on the input-valued predicate '%s' (inputs %s) but %s has no such branch: a special-case derivative for a value computed by one formula" % (lin, unparse_test(e), list(sig[0]), evm),
+                )
+        for sig, lst in ev_sigs.items():
+            r, e, ctl = lst[0]
+            key = "%s.%s: if %s" % (c.name, evm, " ".join(unparse_test(e).split()))
+            if sig in lin_sigs:
+                chk.ok("P4", key, where(c, e.lineno), "same predicate controls %s" % lin)
+            else:
+                # only a finding if an analytic partial of a controlled output exists
+                outs = {x.cell[1] for x in ctl}
+                analytic = False
+                for sv in m.setup_views:
+                    for (o, w), decls in sv.declared_pairs().items():
+                        if any(tmpl_match(o, oo) for oo in outs) and any(d.val is None and d.method is None for d in decls):
+                            analytic = True
+                if not outs:
+                    chk.undecided("P4", key, where(c, e.lineno), "predicate does not directly control an output store")
+                elif analytic:
+                    chk.violation("P4", key, where(c, e.lineno), "%s branches on '%s' when storing %s but %s does not: the derivative ignores the branch" % (evm, unparse_test(e), sorted(outs), lin))
+                else:
+                    chk.info("P4", key, where(c, e.lineno), "branching value with approximated (cs/fd) or constant partials")
+
+
+def unparse_test(e):
+    from ..load import unparse
+
+    node = e.node.test if hasattr(e.node, "test") else e.node
+    return unparse(node)
+
+
 def run(chk, repo, tier):
     p1_p2(chk, repo, tier)
+    p4(chk, repo, tier)
